@@ -276,6 +276,10 @@ class DictList(list):
         other : iterable
             other must contain only unique id's present in the list
         """
+        other = list(other)
+        # make sure every item can be removed before removing any
+        if len({self.index(item) for item in other}) != len(other):
+            raise ValueError("items to remove must be unique")
         for item in other:
             self.remove(item)
         return self
